@@ -334,3 +334,31 @@ def kind_classes(ctx, s):
             s.add("S-TABLE", ctx.fn("pocket_types::Kind::" + names[i]), "classes-disjoint", "%s/%s" % (names[i], names[j]),
                   ctx.fn("pocket_types::Kind::" + names[i]).sp, PROVED if not inter else VIOLATION,
                   "disjoint" if not inter else "overlap on kinds %s" % sorted(inter)[:4])
+
+
+def all_tags_examined(ctx, s):
+    """the deletion handler returns Ok only after its walk over the request's tags ended"""
+    fn = ctx.fn(HANDLER)
+    an = ctx.E.an(fn)
+    ends = []
+    for node in an.edge_cond:
+        for f in s.edge_facts(fn, node):
+            if f[0] == "variant" and f[2] == 0 and f[1][0] == "call" and f[1][1].endswith("::next") and "TagsIter" in f[1][1] or \
+                    (f[0] == "variant" and f[2] == 0 and f[1][0] == "call" and f[1][1].endswith("::next") and
+                     "tags" in f[1][1] and "{impl#2}" in f[1][1]):
+                ends.append(node)
+    # identify the outer iterator by type: the next() whose payload is itself an iterator (TagsStringIter)
+    if not ends:
+        for b, info in an.calls():
+            if (info["base"] or "").endswith("Iterator::next") and "TagsIter" in " ".join(info["aty"]) and "TagsStringIter" not in " ".join(info["aty"]):
+                V = info["value"]
+                for node in an.edge_cond:
+                    for f in s.edge_facts(fn, node):
+                        if f[0] == "variant" and f[2] == 0 and f[1] == V:
+                            ends.append(node)
+    oks = [n for n, k, v in s.return_kinds(fn) if k == "ok"]
+    reach = s.reach(fn, [an.cfg.entry], avoid=ends)
+    ok = bool(ends) and bool(oks) and not any(n in reach for n in oks)
+    s.add("S-MUSTPASS", fn, "ok-only-after-all-tags", "handle_deletion_event", fn.sp, PROVED if ok else VIOLATION,
+          "Ok is returned only after the walk over all tags of the request ended" if ok else
+          "the handler can return Ok before every tag of an accepted request was processed (later targets stay undeleted)")
